@@ -1,5 +1,7 @@
 import MidoModel.Tokenizer
 import MidoModel.Meta
+import MidoModel.Tracks
+import MidoModel.Tempo
 /- Text protocol helpers for the driver: parsing requests, printing canonical results. -/
 namespace Mido
 
@@ -110,6 +112,37 @@ def parseMetaMsg (ts : List String) : Option MetaMsg :=
     let t ← MetaType.ofName ty
     let vs ← vals.mapM parsePyVal
     pure ⟨t, vs⟩
+
+/-! tracks of abstract events: `id:eot:time` tokens, tracks separated by `|` -/
+def parseTEv (s : String) : Option TEv :=
+  match s.splitOn ":" with
+  | [a, b, c] => do
+    let id ← parseNat? a; let e ← parseNat? b; let t ← parseNat? c
+    pure ⟨id, e != 0, t⟩
+  | _ => none
+
+def TEv.show (e : TEv) : String := s!"{e.id}:{if e.eot then 1 else 0}:{e.time}"
+
+def splitTracks (ts : List String) : List (List String) :=
+  let rec go : List String → List String → List (List String) → List (List String)
+    | [], cur, acc => (cur.reverse :: acc).reverse
+    | t :: r, cur, acc => if t == "|" then go r [] (cur.reverse :: acc) else go r (t :: cur) acc
+  go ts [] []
+
+/-! timing events `delta:tempo:meta` with tempo `-` for none -/
+def parsePEv (s : String) : Option PEv :=
+  match s.splitOn ":" with
+  | [a, b, c] => do
+    let d ← parseNat? a
+    let t ← if b == "-" then pure none else (parseNat? b).map some
+    let m ← parseNat? c
+    pure ⟨d, t, m != 0⟩
+  | _ => none
+
+def parsePair (s : String) : Option (Int × Int) :=
+  match s.splitOn ":" with
+  | [a, b] => do let x ← parseInt? a; let y ← parseInt? b; pure (x, y)
+  | _ => none
 
 /-- run-length compression `x*n` of equal neighbours, joined by `;` -/
 def rle (xs : List String) : String :=
